@@ -156,6 +156,73 @@ theorem fresh_registry_isolated (σ : World K) (ad : Bool) (usys : String) (hw :
     · exact view_of_cells _ _ ro' (lutAt_append σ _ _ hin.1 _ rfl) (cacheAt_append σ _ _ hin.2.1 _ rfl)
         (derivedAt_append σ _ _ hin.2.2 _ rfl)
 
+/-- `UnitRegistry(lut=d, add_default_symbols=…)` with a dict `d` that no registry holds: the new registry
+    keeps `d` (by reference — or a new dict if `d` is empty), gets its own cache and derived set, shares
+    nothing with any registry that existed, and nothing they see changed (the defaults are written into `d`,
+    which only the new registry holds) -/
+theorem lut_argument_isolated (σ : World K) (c : Nat) (ad : Bool) (t : Lut K) (hw : WF σ)
+    (hc : σ.luts[c]? = some t)
+    (hfree : ∀ (r' : Nat) (ro' : RegObj K), σ.regs[r']? = some ro' → ro'.lut ≠ c) :
+    ∃ new, (runOp cfg wc pre parse σ (.fromDict c ad)).1.regs[σ.regs.length]? = some new ∧
+      (∀ (r' : Nat) (ro' : RegObj K), σ.regs[r']? = some ro' →
+        (runOp cfg wc pre parse σ (.fromDict c ad)).1.regs[r']? = some ro' ∧ Sep new ro' ∧
+        view (runOp cfg wc pre parse σ (.fromDict c ad)).1 ro' = view σ ro') := by
+  have hclt : c < σ.luts.length := by
+    rcases List.getElem?_eq_some_iff.mp hc with ⟨h, _⟩; exact h
+  simp only [runOp, hc, pushReg]
+  by_cases he : t.isEmpty = true
+  · simp only [he, if_true]
+    refine ⟨{ lut := σ.luts.length, cache := σ.caches.length, derived := σ.deriveds.length }, by simp, ?_⟩
+    intro r' ro' h'
+    have hin := hw r' ro' h'
+    have hlt : r' < σ.regs.length := by
+      rcases List.getElem?_eq_some_iff.mp h' with ⟨h, _⟩; exact h
+    refine ⟨by rw [List.getElem?_append_left hlt]; exact h',
+      ⟨Ne.symm (Nat.ne_of_lt hin.1), Ne.symm (Nat.ne_of_lt hin.2.1), Ne.symm (Nat.ne_of_lt hin.2.2)⟩, ?_⟩
+    apply view_of_cells
+    · by_cases hd : ad = true
+      · simp only [hd, if_true, lutAt]
+        rw [List.getElem?_set_ne (Nat.ne_of_gt hin.1), List.getElem?_append_left hin.1]
+      · simp only [hd, lutAt]
+        exact congrArg (fun x => Option.getD x []) (List.getElem?_append_left hin.1)
+    · exact cacheAt_append σ _ _ hin.2.1 _ rfl
+    · exact derivedAt_append σ _ _ hin.2.2 _ rfl
+  · simp only [he, if_false, Bool.false_eq_true]
+    refine ⟨{ lut := c, cache := σ.caches.length, derived := σ.deriveds.length }, by simp, ?_⟩
+    intro r' ro' h'
+    have hin := hw r' ro' h'
+    have hlt : r' < σ.regs.length := by
+      rcases List.getElem?_eq_some_iff.mp h' with ⟨h, _⟩; exact h
+    have hne := hfree r' ro' h'
+    refine ⟨by rw [List.getElem?_append_left hlt]; exact h',
+      ⟨Ne.symm hne, Ne.symm (Nat.ne_of_lt hin.2.1), Ne.symm (Nat.ne_of_lt hin.2.2)⟩, ?_⟩
+    apply view_of_cells
+    · by_cases hd : ad = true
+      · simp only [hd, if_true, lutAt]
+        rw [List.getElem?_set_ne (Ne.symm hne)]
+      · simp only [hd, lutAt]; rfl
+    · exact cacheAt_append σ _ _ hin.2.1 _ rfl
+    · exact derivedAt_append σ _ _ hin.2.2 _ rfl
+
+/-- a route that copies the table and the derived set (a deep copy) hands back a registry that, at the
+    moment of copying, holds the same rows and the same written-back keys as its source: with an empty cache
+    it resolves every string as a source with an empty cache would -/
+theorem copy_route_sees_source_table (σ : World K) (sh : RouteShape) (src : Nat) (ro : RegObj K)
+    (hsrc : σ.regs[src]? = some ro) (hl : sh.lut = .copy) (ha : sh.addMissingDefaults = false)
+    (hd : sh.derived = .copy) (hc : sh.cache = .empty) :
+    ∃ new, (create σ sh src).1.regs[σ.regs.length]? = some new ∧
+      (view (create σ sh src).1 new).lut = (view σ ro).lut ∧
+      (view (create σ sh src).1 new).derived = (view σ ro).derived ∧
+      (view (create σ sh src).1 new).cache = [] := by
+  unfold create
+  rw [hsrc]
+  simp only [pushReg, hl, hd, hc, allocLut, allocCache, allocDerived, routeRows, ha]
+  refine ⟨{ lut := σ.luts.length, cache := σ.caches.length, derived := σ.deriveds.length,
+            idMemo := if sh.keepsMemo = true then ro.idMemo else none,
+            memoStale := if sh.keepsMemo = true then ro.memoStale else false,
+            usys := if sh.keepsUsys = true then ro.usys else "mks", frozen := sh.keepsClass && ro.frozen },
+    by simp, ?_, ?_, ?_⟩ <;> simp [view, lutAt, cacheAt, derivedAt]
+
 /-! ## histories -/
 
 theorem rel_refl (σ : World K) (r : Nat) (a : RegObj K) (h : Holds σ r a) : Rel σ σ r a := by
